@@ -14,6 +14,8 @@ Every server call runs under a deterministic step budget (sys.monitoring backwar
 from __future__ import annotations
 
 import json
+import os
+import re
 import urllib.parse
 
 from .. import clock as simclock
@@ -54,13 +56,16 @@ def generate(seed: int, tier: str, index: int) -> dict:
             "t0_us": simclock.SimClock.parse(rng.choice(mc.T0_CHOICES)), "sched_seed": rng.getrandbits(32),
             "family": family, "actors": []}
     if family == "hostile":
-        # the hostile catalogue is a finite enumeration: nothing in these runs depends on the seed
-        h = index // 5
-        spec["world"] = {"variant": ["full", "noenc", "noaudio", "notiming", "unindexed"][h % 5]}
-        spec["slice"] = (h // 5) % N_SLICES
+        # the hostile catalogue is a finite enumeration of (slice, world variant, role) = 48 x 5 x 2 cells; nothing
+        # in these runs depends on the per-run seed.  Cell c of the sweep is visited in a fixed scattered order
+        # (stride 77 is coprime with 480) and VERIF_SEED only rotates where a bounded sweep starts.
+        c = (index // 5) * 3 + index % 5 + 144 * int(os.environ.get("VERIF_SEED", "0") or 0)
+        cell = (c * 77) % (N_SLICES * 10)
+        spec["slice"] = cell % N_SLICES
+        spec["world"] = {"variant": ["full", "noenc", "noaudio", "notiming", "unindexed"][(cell // N_SLICES) % 5]}
         spec["t0_us"] = simclock.SimClock.parse("2026-09-26T10:00:00Z")
         spec["sched_seed"] = 0
-        spec["actors"] = [{"id": "hostile", "kind": "hostile", "role": ["anonymous", "media"][(h // 5) % 2],
+        spec["actors"] = [{"id": "hostile", "kind": "hostile", "role": ["anonymous", "media"][cell // (N_SLICES * 5)],
                            "prng": 0, "script": [{"op": "slice", "n": spec["slice"]}]}]
     elif family == "storage":
         spec["world"] = {"variant": "full"}
@@ -174,6 +179,22 @@ def catalogue(world) -> list[tuple[str, str, dict | None]]:
                         continue
                     items.append((method, path + ("?ajax=1" if body == "json-junk" and method != "GET" else ""),
                                   {"kind": body} if body else None))
+    # the same bodies carrying a CSRF token that is valid for the service of the route (authorised role only):
+    # they reach the code behind the CSRF check.  Kept at the end of the catalogue because they may really
+    # delete or rename things.
+    for rule in rules:
+        if rule.endpoint == "static":
+            continue
+        values = {a: fills[0].get(a, "1") for a in rule.arguments}
+        try:
+            path = adapter.build(rule.endpoint, values)
+        except Exception:  # noqa: BLE001
+            continue
+        for method in sorted((rule.methods or set()) & {"POST", "PUT", "DELETE"}):
+            for body in ("json-empty-tok", "json-junk-tok", "form-junk-tok", "json-partial-tok"):
+                if method == "DELETE" and body != "json-empty-tok":
+                    continue
+                items.append((method, path + ("?ajax=1" if body.startswith("json") else ""), {"kind": body}))
     # licence endpoint bodies
     for body in ({"kids": ["AAAAAAAAAAAAAAAAAAAAAA"], "type": "temporary"}, {"kids": "x"}, {"kids": [1, None]}, [], 5,
                  {"kids": ["!!"], "type": "t"}, {"kids": []}, {}):
@@ -204,7 +225,27 @@ class Hostile(RoleClient):
                     continue
                 headers = {}
                 data = None
-                if body:
+                if body and body["kind"].endswith("-tok"):
+                    if self.role == "anonymous":
+                        continue
+                    path = urllib.parse.urlsplit(target).path
+                    service = ("kids" if path.startswith("/key") else
+                               "files" if re.search(r"^/stream/\d+/\d+|^/media/(index|inspect)", path) else
+                               "upload" if path.startswith("/media") else "streams")
+                    tok = await self.api.token(service, discover_ids(world).get("spk")) or "junk"
+                    junk = {"json-empty-tok": {}, "json-junk-tok": dict(JUNK), "form-junk-tok": dict(JUNK),
+                            "json-partial-tok": {"title": "t", "directory": 7, "name": "n", "kid": "zz", "track_id": "1",
+                                                 "lang": ["en"], "periods": [{"pid": 1}], "username": "u"}}[body["kind"]]
+                    junk["csrf_token"] = tok
+                    if method == "DELETE":
+                        target += ("&" if "?" in target else "?") + urllib.parse.urlencode({"csrf_token": tok})
+                    elif body["kind"].startswith("form"):
+                        data, headers["Content-Type"] = form({k: str(v) for k, v in junk.items()})
+                    else:
+                        data, headers["Content-Type"] = json.dumps(junk).encode(), "application/json"
+                    if self.api.access_token:
+                        headers["Authorization"] = f"Bearer {self.api.access_token}"
+                elif body:
                     kind = body["kind"]
                     if kind == "json-empty":
                         data, headers["Content-Type"] = b"{}", "application/json"
